@@ -404,8 +404,11 @@ func runC16(r *simkit.Run) {
 	handlerRan := false
 	sawEncoding := ""
 	var hmu sync.Mutex
+	var hwg sync.WaitGroup // handlers still running (http.Server.Close does not wait for them)
 	epoch := 0
 	handler := http.HandlerFunc(func(w http.ResponseWriter, req *http.Request) {
+		hwg.Add(1)
+		defer hwg.Done()
 		hmu.Lock()
 		my := epoch
 		handlerRan = true
@@ -532,9 +535,20 @@ func runC16(r *simkit.Run) {
 		_ = resp.Body.Close()
 	}
 	simkit.Beat()
-	// make sure the handler has finished (the server closes the connection on errors before the handler returns)
+	// make sure the handler has finished (the server closes the connection on errors before the handler returns, and
+	// Close does not wait for handler goroutines)
 	_ = srv.Close()
 	<-done
+	idle := make(chan struct{})
+	go func() { hwg.Wait(); close(idle) }()
+	select {
+	case <-idle:
+	case <-time.After(10 * time.Second):
+		r.Count("probe.infra_handler_still_running")
+		r.Logf("skipped: a handler was still running 10 s after the server was closed")
+		return
+	}
+	// (all handlers have returned: their writes happen-before this point through the WaitGroup)
 	r.Logf("status=%d clientErr=%v handlerRan=%v got=%d bytes readErr=%v", status, perr != nil, handlerRan, len(got), readErr != nil)
 
 	// ---- oracle
